@@ -596,7 +596,7 @@ func TestC20(t *testing.T) {
 			run.Violation(id, r.Key, r.What, map[string]any{"accusations_before": i % 4})
 		}
 	}
-	for i := 0; i < run.Pick(4, 60); i++ {
+	for i := 0; i < run.Pick(4, 24); i++ {
 		id := fmt.Sprintf("stalled-peer/%d", i)
 		if !run.Mine(i) || !run.Want(id) {
 			continue
@@ -624,7 +624,7 @@ func TestC20(t *testing.T) {
 			run.Violation(id, r.Key, r.What, map[string]any{"call": call})
 		}
 	}
-	for i := 0; i < run.Pick(4, 60); i++ {
+	for i := 0; i < run.Pick(4, 24); i++ {
 		id := fmt.Sprintf("stalled-delegate/%d", i)
 		if !run.Mine(i) || !run.Want(id) {
 			continue
